@@ -1,12 +1,15 @@
 import BtcwVerif.Lemmas.KMap
 import BtcwVerif.Lemmas.Balance
+import BtcwVerif.Lemmas.Calls
+import BtcwVerif.Model.Ledger
 /-!
 # C12 — a leased output stays out of reach until released or expired
 
 Theorems about the lease operations of the `TxStore` model (`LockOutput`, `UnlockOutput`,
 `DeleteExpiredLockedOutputs`, `ListLockedOutputs`, `isLockedOutput`, the lease clearing of `insertMinedTx`, the
 lease tests inside `Balance` and `UnspentOutputs`) on an ARBITRARY store, arbitrary ids, instants and durations.
-Time is in nanoseconds; the stored expiry is in whole seconds exactly as `serializeLockedOutput` writes it.
+Time is in nanoseconds; the stored expiry is in whole seconds exactly as `serializeLockedOutput` writes it; the
+expiry handed to the caller is rounded up to a whole second so that both agree (`C12_expiry_exact`).
 -/
 namespace TxStore.C12
 open TxStore KMap
@@ -65,16 +68,16 @@ theorem C12_other_id_never_ok (s : Store) (now id' : Nat) (op : OutPoint) (d : I
     (∀ r, lockOutput s now id' op d ≠ .ok r) ∧ (∀ r, unlockOutput s now id' op ≠ .ok r) := by
   cases hk : isKnownOutput s op <;> simp [lockOutput, unlockOutput, hk, hl, hne]
 
-/-- **same id extends / free output can be leased** — the call succeeds, hands `now + d` to the caller, stores
-the whole seconds of that instant under the id, and touches nothing else. -/
+/-- **same id extends / free output can be leased** — the call succeeds, hands the granted expiry (`now + d` rounded
+up to a whole second) to the caller, stores exactly that instant (in seconds) under the id, and touches nothing else. -/
 theorem C12_extend (s : Store) (now id : Nat) (op : OutPoint) (d : Int)
     (hk : isKnownOutput s op = true)
     (hfree : ∀ l, isLockedOutput s op now = some l → l.id = id) :
-    ∃ s', lockOutput s now id op d = .ok ((now : Int) + d, s') ∧
-      s'.locked.find? op = some ⟨id, unixSeconds (now + d)⟩ ∧
+    ∃ s', lockOutput s now id op d = .ok (grantedExpiry now d, s') ∧
+      s'.locked.find? op = some ⟨id, unixSeconds (grantedExpiry now d)⟩ ∧
       (∀ op', op' ≠ op → s'.locked.find? op' = s.locked.find? op') ∧
       s' = { s with locked := s'.locked } := by
-  refine ⟨{ s with locked := s.locked.insert op ⟨id, unixSeconds (now + d)⟩ }, ?_, ?_, ?_, rfl⟩
+  refine ⟨{ s with locked := s.locked.insert op ⟨id, unixSeconds (grantedExpiry now d)⟩ }, ?_, ?_, ?_, rfl⟩
   · cases hl : isLockedOutput s op now with
     | none => simp [lockOutput, hk, hl]
     | some l => simp [lockOutput, hk, hl, hfree l hl]
@@ -344,29 +347,387 @@ theorem C12_excluded_balance_partial (s : Store) (hinv : Inv s) (now : Nat) (mat
   · intro c hl; simp [countsMined, hl]
   · intro e hl; simp [countsUnmined, hl]
 
-/-! ### the stored expiry is truncated to seconds (DESIGN §7-F8) -/
+/-- **excluded from the balance, after every chain-consistent history** (reorgs included): `Balance` is the sum over
+the credits admitted by `countsMined` / `countsUnmined`, and both reject every output leased at that instant. -/
+theorem C12_excluded_balance (ops : List (Nat × Call)) (hp : PreAll Store.empty ops) (now : Nat) (mat m sy : Int) :
+    balance (runCalls Store.empty ops) now mat m sy = .ok (storeTruth (runCalls Store.empty ops) now mat m sy) ∧
+    (∀ c : CInfo, isLocked (runCalls Store.empty ops) c.key.outPoint now = true →
+        countsMined (runCalls Store.empty ops) now m sy mat c = false) ∧
+    (∀ e : OutPoint × UCredit, isLocked (runCalls Store.empty ops) e.1 now = true →
+        countsUnmined (runCalls Store.empty ops) now e = false) :=
+  ⟨balance_eq_storeTruth _ (inv_runCalls ops hp) now mat m sy,
+   fun c hl => by simp [countsMined, hl], fun e hl => by simp [countsUnmined, hl]⟩
 
-/-- the stored expiry (seconds) is at most one second before the instant handed to the caller, never after it -/
+/-! ### the expiry handed to the caller is the expiry that is stored (DESIGN §7-F8, fixed in /repo 4c73b71) -/
+
+/-- whole seconds of an instant: at most one second below it, never above -/
 theorem C12_expiry_gap (e : Int) : unixSeconds e * 1000000000 ≤ e ∧ e < unixSeconds e * 1000000000 + 1000000000 := by
   unfold unixSeconds
   constructor <;> omega
 
-/-- no gap when the instant handed to the caller is a whole second -/
-theorem C12_expiry_exact_whole_seconds (k : Int) : unixSeconds (k * 1000000000) * 1000000000 = k * 1000000000 := by
-  unfold unixSeconds; omega
+/-- **the granted expiry is exactly what is stored**: no instant exists at which the caller believes the lease is in
+force while the store has released it, or vice versa -/
+theorem C12_expiry_exact (now : Nat) (d : Int) :
+    unixSeconds (grantedExpiry now d) * 1000000000 = grantedExpiry now d := by
+  unfold grantedExpiry unixSeconds
+  simp only
+  split <;> omega
+
+/-- the granted expiry is never before `now + d` and less than one second after it -/
+theorem C12_expiry_bounds (now : Nat) (d : Int) :
+    (now : Int) + d ≤ grantedExpiry now d ∧ grantedExpiry now d < (now : Int) + d + 1000000000 := by
+  unfold grantedExpiry
+  simp only
+  split <;> constructor <;> omega
+
+/-- **leased until the expiry handed to the caller, free from then on**: after a successful `LockOutput` returning
+`e`, the output is leased at every instant before `e` and free at `e` and later (until somebody leases it again). -/
+theorem C12_leased_until_returned_expiry (s s' : Store) (now id : Nat) (op : OutPoint) (d e : Int)
+    (h : lockOutput s now id op d = .ok (e, s')) (t : Nat) :
+    isLocked s' op t = decide ((t : Int) < e) := by
+  have hs : e = grantedExpiry now d ∧ s'.locked.find? op = some ⟨id, unixSeconds (grantedExpiry now d)⟩ := by
+    by_cases hk : isKnownOutput s op = true
+    · cases hl : isLockedOutput s op now with
+      | none =>
+        simp [lockOutput, hk, hl] at h
+        obtain ⟨h1, rfl⟩ := h
+        exact ⟨h1.symm, by simp⟩
+      | some l =>
+        by_cases hid : l.id = id
+        · simp [lockOutput, hk, hl, hid] at h
+          obtain ⟨h1, rfl⟩ := h
+          exact ⟨h1.symm, by simp⟩
+        · simp [lockOutput, hk, hl, hid] at h
+    · simp [lockOutput, hk] at h
+  obtain ⟨he, hf⟩ := hs
+  unfold isLocked
+  rw [isLockedOutput_eq, hf]
+  simp only
+  rw [C12_expiry_exact, he]
+  by_cases hc : (t : Int) < grantedExpiry now d <;> simp [hc]
 
 /-- a concrete store: one unconfirmed credited output `(7,0)` -/
 def exStore : Store := { unmined := [(7, ⟨7, [⟨99, 0⟩], [5000]⟩)], unminedCredits := [(⟨7, 0⟩, ⟨5000, false⟩)] }
 
-/-- **counter-example to "until the expiry handed to the caller"** (finding `lease.expiry-truncated-to-seconds`):
-at 0.5 s the output is leased for 1.2 s; `LockOutput` returns 1.7 s; at 1.0 s — 0.7 s before that — the output is
-already free, and a different id obtains it. -/
-theorem C12_counterexample_truncated_expiry :
-    ∃ s', lockOutput exStore 500000000 1 ⟨7, 0⟩ 1200000000 = .ok (1700000000, s') ∧
-      isLocked s' ⟨7, 0⟩ 999999999 = true ∧
-      isLocked s' ⟨7, 0⟩ 1000000000 = false ∧ (1000000000 : Int) < 1700000000 ∧
-      (∃ s'', lockOutput s' 1000000000 2 ⟨7, 0⟩ 1000000000 = .ok (2000000000, s'')) := by
-  refine ⟨_, rfl, ?_, ?_, ?_, ⟨_, rfl⟩⟩ <;> decide
+/-- the scenario of the former finding `lease.expiry-truncated-to-seconds`: at 0.5 s the output is leased for 1.2 s;
+`LockOutput` now returns 2.0 s (1.7 s rounded up); at 1.999999999 s it is still leased and a different id is refused;
+at 2.0 s it is free. -/
+theorem C12_subsecond_lease_example :
+    ∃ s', lockOutput exStore 500000000 1 ⟨7, 0⟩ 1200000000 = .ok (2000000000, s') ∧
+      isLocked s' ⟨7, 0⟩ 1999999999 = true ∧
+      lockOutput s' 1999999999 2 ⟨7, 0⟩ 1000000000 = .error Err.alreadyLocked ∧
+      isLocked s' ⟨7, 0⟩ 2000000000 = false := by
+  refine ⟨_, rfl, ?_, ?_, ?_⟩ <;> decide
+
+/-! ### refinement of the lease events: the store's lease bucket implements the `Ledger`'s leases
+
+`LeaseRefines s L`: the lease bucket and `L.leases` agree pointwise (the ledger keeps the instant handed to the caller
+in ns, the store whole seconds), and the store knows exactly the outputs the ledger allows to lease.  The four lease
+events (*lease*, *release*, *sweep*, *clock*) preserve the relation, and the lease queries agree.
+`_partial`: that the chain events (*seen*, *confirmed*, *disconnected*, *abandoned*) preserve the `known` clause is
+part of the full refinement `step_repr`, which is not proved (run-time checked by `spec probe`). -/
+
+theorem find?_filter_ne {α : Type} (l : List (OutPoint × α)) (op op' : OutPoint) :
+    (l.filter fun p => p.1 != op).find? (fun p => p.1 == op') =
+      if op' = op then none else l.find? (fun p => p.1 == op') := by
+  induction l with
+  | nil => simp
+  | cons p t ih =>
+    by_cases h1 : p.1 = op
+    · have hf : (p.1 != op) = false := by simp [h1]
+      rw [List.filter_cons, hf]
+      simp only [Bool.false_eq_true, if_false]
+      rw [ih]
+      by_cases h2 : op' = op
+      · simp [h2]
+      · have h3 : (p.1 == op') = false := by rw [h1]; simpa using fun e => h2 e.symm
+        simp [h2, List.find?_cons, h3]
+    · have hf : (p.1 != op) = true := by simpa using h1
+      rw [List.filter_cons, hf]
+      simp only [if_true, List.find?_cons]
+      by_cases h3 : (p.1 == op') = true
+      · have : p.1 = op' := by simpa using h3
+        have h2 : ¬ op' = op := by rw [← this]; exact h1
+        simp [h3, h2]
+      · have h3' : (p.1 == op') = false := by simpa using h3
+        simp only [h3']
+        exact ih
+
+theorem lookup_filter_ne {α : Type} (l : List (OutPoint × α)) (op op' : OutPoint) :
+    Ledger.lookup (l.filter fun p => p.1 != op) op' = if op' = op then none else Ledger.lookup l op' := by
+  unfold Ledger.lookup
+  rw [find?_filter_ne]
+  by_cases h : op' = op <;> simp [h]
+
+open Ledger in
+theorem lookup_append_single {α : Type} (l : List (OutPoint × α)) (op op' : OutPoint) (x : α) :
+    Ledger.lookup (l ++ [(op, x)]) op' =
+      match Ledger.lookup l op' with
+      | some y => some y
+      | none => if op' = op then some x else none := by
+  unfold Ledger.lookup
+  induction l with
+  | nil =>
+    by_cases h : op' = op
+    · subst h; simp
+    · have : (op == op') = false := by simpa using fun e => h e.symm
+      simp [List.find?_cons, this, h]
+  | cons p t ih =>
+    simp only [List.cons_append, List.find?_cons]
+    by_cases h3 : (p.1 == op') = true
+    · simp [h3]
+    · simp only [h3, Bool.false_eq_true]
+      exact ih
+
+structure LeaseRefines (s : Store) (L : Ledger.Ledger) : Prop where
+  known : ∀ op, isKnownOutput s op = Ledger.leasable L op
+  leases : ∀ op, (s.locked.find? op).map (fun l => (l.id, l.expiry * 1000000000)) =
+    (Ledger.lookup L.leases op).map (fun l => (l.id, l.expiry))
+
+theorem leaseOf_refines {s : Store} {L : Ledger.Ledger} (h : LeaseRefines s L) (op : OutPoint) :
+    (isLockedOutput s op L.now).map (fun l => (l.id, l.expiry * 1000000000)) =
+      (Ledger.leaseOf L op).map (fun l => (l.id, l.expiry)) := by
+  have := h.leases op
+  unfold Ledger.leaseOf
+  rw [isLockedOutput_eq]
+  cases h1 : s.locked.find? op with
+  | none =>
+    rw [h1] at this
+    cases h2 : Ledger.lookup L.leases op with
+    | none => rfl
+    | some l' => rw [h2] at this; cases this
+  | some l =>
+    rw [h1] at this
+    cases h2 : Ledger.lookup L.leases op with
+    | none => rw [h2] at this; cases this
+    | some l' =>
+      rw [h2] at this
+      simp only [Option.map_some, Option.some.injEq, Prod.mk.injEq] at this
+      simp only
+      rw [← this.2]
+      by_cases hc : (L.now : Int) < l.expiry * 1000000000
+      · simp [hc, this.1, this.2]
+      · simp [hc]
+
+private theorem leasable_leases (L : Ledger.Ledger) (ls : List (OutPoint × Ledger.Lease)) (op : OutPoint) :
+    Ledger.leasable { L with leases := ls } op = Ledger.leasable L op := rfl
+
+/-- **lease** refines: `LockOutput` at the ledger's clock does to the bucket what `Ledger.apply (.lease …)` does to
+the ledger's leases (refused for unknown outputs and for outputs held by another id, granted/extended otherwise, the
+stored seconds being exactly the granted instant) -/
+theorem C12_lease_refines_partial (s : Store) (L : Ledger.Ledger) (id : Nat) (op : OutPoint) (d : Int)
+    (h : LeaseRefines s L) :
+    LeaseRefines (match lockOutput s L.now id op d with | .ok (_, s') => s' | .error _ => s)
+      (Ledger.apply L (.lease id op d)) := by
+  have hk := h.known op
+  have hl := leaseOf_refines h op
+  unfold Ledger.apply
+  by_cases hkn : isKnownOutput s op = true
+  · have hkl : Ledger.leasable L op = true := by rw [← hk]; exact hkn
+    simp only [hkl, Bool.not_true, Bool.false_eq_true, if_false]
+    -- the new relation once the lease is written
+    have hnew : LeaseRefines { s with locked := s.locked.insert op ⟨id, unixSeconds (grantedExpiry L.now d)⟩ }
+        { L with leases := (L.leases.filter fun p => p.1 != op) ++ [(op, ⟨id, grantedExpiry L.now d⟩)] } := by
+      refine ⟨fun op' => h.known op', ?_⟩
+      intro op'
+      show ((s.locked.insert op _).find? op').map _ = _
+      rw [find?_insert, lookup_append_single, lookup_filter_ne]
+      by_cases e : op = op'
+      · subst e
+        simp only [if_true, Option.map_some]
+        rw [C12_expiry_exact]
+      · have e' : ¬ op' = op := fun x => e x.symm
+        simp only [e, e', if_false]
+        have := h.leases op'
+        cases h2 : Ledger.lookup L.leases op' with
+        | none => rw [h2] at this; simpa using this
+        | some y => rw [h2] at this; simpa using this
+    cases h1 : isLockedOutput s op L.now with
+    | none =>
+      rw [h1] at hl
+      have h2 : Ledger.leaseOf L op = none := by
+        cases hx : Ledger.leaseOf L op with
+        | none => rfl
+        | some y => rw [hx] at hl; cases hl
+      simp only [h2]
+      have : lockOutput s L.now id op d = .ok (grantedExpiry L.now d,
+          { s with locked := s.locked.insert op ⟨id, unixSeconds (grantedExpiry L.now d)⟩ }) := by
+        simp [lockOutput, hkn, h1]
+      rw [this]; exact hnew
+    | some l =>
+      rw [h1] at hl
+      cases hx : Ledger.leaseOf L op with
+      | none => rw [hx] at hl; cases hl
+      | some l' =>
+        rw [hx] at hl
+        simp only [Option.map_some, Option.some.injEq, Prod.mk.injEq] at hl
+        simp only
+        by_cases hid : l.id = id
+        · have hid' : l'.id = id := by rw [← hl.1]; exact hid
+          have : lockOutput s L.now id op d = .ok (grantedExpiry L.now d,
+              { s with locked := s.locked.insert op ⟨id, unixSeconds (grantedExpiry L.now d)⟩ }) := by
+            simp [lockOutput, hkn, h1, hid]
+          rw [this]
+          simp only [hid', ne_eq, not_true_eq_false, if_false]
+          exact hnew
+        · have hid' : l'.id ≠ id := by rw [← hl.1]; exact hid
+          have : lockOutput s L.now id op d = .error Err.alreadyLocked := by
+            simp [lockOutput, hkn, h1, hid]
+          rw [this]
+          simp only [hid', ne_eq, not_false_eq_true, if_true]
+          exact h
+  · have hkn' : isKnownOutput s op = false := by simpa using hkn
+    have hkl : Ledger.leasable L op = false := by rw [← hk]; exact hkn'
+    have : lockOutput s L.now id op d = .error Err.unknownOutput := by simp [lockOutput, hkn']
+    rw [this]
+    simp only [hkl, Bool.not_false, if_true]
+    exact h
+
+/-- **release** refines -/
+theorem C12_release_refines_partial (s : Store) (L : Ledger.Ledger) (id : Nat) (op : OutPoint)
+    (h : LeaseRefines s L) :
+    LeaseRefines (match unlockOutput s L.now id op with | .ok s' => s' | .error _ => s)
+      (Ledger.apply L (.release id op)) := by
+  have hk := h.known op
+  have hl := leaseOf_refines h op
+  unfold Ledger.apply
+  by_cases hkn : isKnownOutput s op = true
+  · have hkl : Ledger.leasable L op = true := by rw [← hk]; exact hkn
+    simp only [hkl, Bool.not_true, Bool.false_eq_true, if_false]
+    cases h1 : isLockedOutput s op L.now with
+    | none =>
+      rw [h1] at hl
+      have h2 : Ledger.leaseOf L op = none := by
+        cases hx : Ledger.leaseOf L op with
+        | none => rfl
+        | some y => rw [hx] at hl; cases hl
+      simp only [h2]
+      have : unlockOutput s L.now id op = .ok s := by simp [unlockOutput, hkn, h1]
+      rw [this]; exact h
+    | some l =>
+      rw [h1] at hl
+      cases hx : Ledger.leaseOf L op with
+      | none => rw [hx] at hl; cases hl
+      | some l' =>
+        rw [hx] at hl
+        simp only [Option.map_some, Option.some.injEq, Prod.mk.injEq] at hl
+        simp only
+        by_cases hid : l.id = id
+        · have hid' : l'.id = id := by rw [← hl.1]; exact hid
+          have : unlockOutput s L.now id op = .ok (unlockOutputRaw s op) := by
+            simp [unlockOutput, hkn, h1, hid]
+          rw [this]
+          simp only [hid', ne_eq, not_true_eq_false, if_false]
+          refine ⟨fun op' => h.known op', ?_⟩
+          intro op'
+          show ((s.locked.erase op).find? op').map _ = _
+          rw [find?_erase, lookup_filter_ne]
+          by_cases e : op = op'
+          · subst e; simp
+          · have e' : ¬ op' = op := fun x => e x.symm
+            simp only [e, e', if_false]
+            exact h.leases op'
+        · have hid' : l'.id ≠ id := by rw [← hl.1]; exact hid
+          have : unlockOutput s L.now id op = .error Err.unlockNotAllowed := by
+            simp [unlockOutput, hkn, h1, hid]
+          rw [this]
+          simp only [hid', ne_eq, not_false_eq_true, if_true]
+          exact h
+  · have hkn' : isKnownOutput s op = false := by simpa using hkn
+    have hkl : Ledger.leasable L op = false := by rw [← hk]; exact hkn'
+    have : unlockOutput s L.now id op = .error Err.unknownOutput := by simp [unlockOutput, hkn']
+    rw [this]
+    simp only [hkl, Bool.not_false, if_true]
+    exact h
+
+theorem lookup_none_of_not_mem {α : Type} (l : List (OutPoint × α)) (op : OutPoint) (h : op ∉ l.map (·.1)) :
+    Ledger.lookup l op = none := by
+  unfold Ledger.lookup
+  have : l.find? (fun p => p.1 == op) = none := by
+    rw [List.find?_eq_none]
+    intro p hp e
+    apply h
+    have : p.1 = op := by simpa using e
+    rw [← this]; exact List.mem_map.mpr ⟨p, hp, rfl⟩
+  rw [this]
+
+theorem lookup_filter_val {α : Type} (P : α → Bool) : ∀ (l : List (OutPoint × α)) (op : OutPoint),
+    (l.map (·.1)).Nodup →
+    Ledger.lookup (l.filter fun p => P p.2) op =
+      match Ledger.lookup l op with
+      | some x => if P x then some x else none
+      | none => none := by
+  intro l
+  induction l with
+  | nil => intro op _; rfl
+  | cons p t ih =>
+    intro op hn
+    rw [List.map_cons, List.nodup_cons] at hn
+    by_cases h3 : (p.1 == op) = true
+    · have hp : p.1 = op := by simpa using h3
+      have hl : Ledger.lookup (p :: t) op = some p.2 := by simp [Ledger.lookup, List.find?_cons, h3]
+      rw [hl]
+      by_cases hP : P p.2 = true
+      · simp [List.filter_cons, hP, Ledger.lookup, List.find?_cons, h3]
+      · simp only [List.filter_cons, hP, Bool.false_eq_true, if_false]
+        apply lookup_none_of_not_mem
+        intro hm
+        apply hn.1
+        rw [hp]
+        obtain ⟨q, hq, hqe⟩ := List.mem_map.mp hm
+        exact List.mem_map.mpr ⟨q, (List.mem_filter.mp hq).1, hqe⟩
+    · have h3' : (p.1 == op) = false := by simpa using h3
+      have hl : Ledger.lookup (p :: t) op = Ledger.lookup t op := by simp [Ledger.lookup, List.find?_cons, h3']
+      rw [hl, ← ih op hn.2]
+      by_cases hP : P p.2 = true
+      · simp [List.filter_cons, hP, Ledger.lookup, List.find?_cons, h3']
+      · simp [List.filter_cons, hP]
+
+/-- **sweep** refines: `DeleteExpiredLockedOutputs` removes from the bucket exactly the leases the ledger drops
+(keys of the bucket and of the ledger's lease list are unique) -/
+theorem C12_sweep_refines_partial (s : Store) (L : Ledger.Ledger) (h : LeaseRefines s L)
+    (hn : NodupKeys s.locked) (hnL : (L.leases.map (·.1)).Nodup) :
+    LeaseRefines (deleteExpiredLockedOutputs s L.now) (Ledger.apply L .sweep) := by
+  refine ⟨?_, ?_⟩
+  · intro op
+    have : isKnownOutput (deleteExpiredLockedOutputs s L.now) op = isKnownOutput s op := by
+      rw [C12_sweep_only_leases]; rfl
+    rw [this]; exact h.known op
+  · intro op
+    rw [C12_sweep_exact s L.now op hn]
+    show _ = (Ledger.lookup (L.leases.filter fun p => decide ((L.now : Int) < p.2.expiry)) op).map _
+    rw [lookup_filter_val (fun l : Ledger.Lease => decide ((L.now : Int) < l.expiry)) L.leases op hnL]
+    have := h.leases op
+    cases h1 : s.locked.find? op with
+    | none =>
+      rw [h1] at this
+      cases h2 : Ledger.lookup L.leases op with
+      | none => rfl
+      | some y => rw [h2] at this; cases this
+    | some l =>
+      rw [h1] at this
+      cases h2 : Ledger.lookup L.leases op with
+      | none => rw [h2] at this; cases this
+      | some y =>
+        rw [h2] at this
+        simp only [Option.map_some, Option.some.injEq, Prod.mk.injEq] at this
+        simp only
+        rw [← this.2]
+        by_cases hc : (L.now : Int) < l.expiry * 1000000000
+        · simp [hc, this.1, this.2]
+        · simp [hc]
+
+/-- **clock** refines (the store has no clock of its own: the relation does not mention it) -/
+theorem C12_clock_refines_partial (s : Store) (L : Ledger.Ledger) (t : Nat) (h : LeaseRefines s L) :
+    LeaseRefines s (Ledger.apply L (.clock t)) := ⟨fun op => h.known op, fun op => h.leases op⟩
+
+/-- **the lease queries agree**: an output is leased at the ledger's clock in the store iff it is in the ledger, under
+the same id and until the same instant — in particular at the boundary instant `now = expiry` both say free -/
+theorem C12_leased_refines_partial (s : Store) (L : Ledger.Ledger) (h : LeaseRefines s L) (op : OutPoint) :
+    isLocked s op L.now = Ledger.leased L op := by
+  have := leaseOf_refines h op
+  unfold isLocked Ledger.leased
+  cases h1 : isLockedOutput s op L.now <;> cases h2 : Ledger.leaseOf L op <;> simp_all
 
 /-! ### non-vacuity: the hypotheses of the theorems above are satisfiable on a concrete store -/
 
